@@ -679,6 +679,349 @@ theorem read_full_serves_any_entry (s : St) {t : FileType} (ht : isCacheable t =
     (hc : cHit s.dirs s.cache t id = some d') : (readFull s t id).1 = .ok d' := by
   unfold readFull; simp [ht, (cReadFull_hit_iff _ _ _ _ _).2 hc]
 
+/-! ### (6) files that are never cached: the cache directory is not consulted
+
+Config and key files, and packs read / written with `cacheable = false` (data packs): `CachedBackend` passes every operation straight to
+the backend.  WHATEVER lies in the cache directory — in particular at `<type>/<xx>/<id>` of such a file (nothing ever writes or cleans
+that place; seeded breakage C19-7 made `read_partial` look there) — results and state are the bare backend's.  No hypothesis on `s`. -/
+
+theorem noncacheable_read_bypasses_cache (s : St) {t : FileType} (ht : isCacheable t = false) (id : Name) :
+    readFull s t id = (beReadFull s.be t id, s) := by
+  unfold readFull; simp [ht]
+
+/-- … ranged reads too — every offset and length, the empty range included -/
+theorem noncacheable_read_partial_bypasses_cache (s : St) {t : FileType} (ht : isCacheable t = false) (id : Name)
+    (off len : Nat) : readPartial s t id false off len = (beReadPartial s.be t id off len, s) := by
+  unfold readPartial; simp [ht]
+
+theorem noncacheable_write_remove_keep_cache (s : St) {t : FileType} (ht : isCacheable t = false) (id : Name) (d : Bytes) :
+    writeBytes s t id false d = { s with be := s.be.write (t, id) d } ∧
+    remove s t id false = { s with be := s.be.remove (t, id) } ∧
+    ∀ a, listWithSize L s t a = s := by
+  refine ⟨?_, ?_, fun a => ?_⟩
+  · unfold writeBytes; simp [ht]
+  · unfold remove; simp [ht]
+  · unfold listWithSize; simp [ht]
+
+/-- an operation on a file that is never cached -/
+def OpNC : Op → Prop
+  | .read t _ => isCacheable t = false
+  | .readPartial t _ cb _ _ => isCacheable t = false ∧ cb = false
+  | .write t _ cb _ => isCacheable t = false ∧ cb = false
+  | .remove t _ cb => isCacheable t = false ∧ cb = false
+  | .list t _ => isCacheable t = false
+
+theorem stepC_noncacheable (s : St) (op : Op) (h : OpNC op) :
+    (stepC L s op).1 = (stepU s.be op).1 ∧ (stepC L s op).2 = { s with be := (stepU s.be op).2 } := by
+  cases op with
+  | read t id => simp only [stepC, stepU, noncacheable_read_bypasses_cache s h id, and_self]
+  | readPartial t id cb off len =>
+    obtain ⟨ht, hcb⟩ := h; subst hcb
+    simp only [stepC, stepU, noncacheable_read_partial_bypasses_cache s ht id off len, and_self]
+  | write t id cb d =>
+    obtain ⟨ht, hcb⟩ := h; subst hcb
+    exact ⟨rfl, (noncacheable_write_remove_keep_cache (L := L) s ht id d).1⟩
+  | remove t id cb =>
+    obtain ⟨ht, hcb⟩ := h; subst hcb
+    exact ⟨rfl, (noncacheable_write_remove_keep_cache (L := L) s ht id []).2.1⟩
+  | list t a => exact ⟨rfl, (noncacheable_write_remove_keep_cache (L := L) s h [] []).2.2 a⟩
+
+/-- **Histories on never-cached files are transparent from ANY cache directory** (no coherence, no `NoEntry`, no condition on ids,
+ranges or planted objects), and leave the cache directory exactly as it was. -/
+theorem transparent_noncacheable (ops : List Op) (s : St) (hops : ∀ op ∈ ops, OpNC op) :
+    (runC L s ops).1 = (runU s.be ops).1 ∧ (runC L s ops).2 = { s with be := (runU s.be ops).2 } := by
+  induction ops generalizing s with
+  | nil => exact ⟨rfl, rfl⟩
+  | cons op rest ih =>
+    obtain ⟨h1, h2⟩ := stepC_noncacheable (L := L) s op (hops op List.mem_cons_self)
+    obtain ⟨g1, g2⟩ := ih (stepC L s op).2 (fun o ho => hops o (List.mem_cons_of_mem _ ho))
+    simp only [runC, runU]
+    rw [h2] at g1 g2 ⊢
+    exact ⟨by rw [h1, g1], g2⟩
+
+/-! ### (7) `check` through a cached handle — with and without `trust_cache`
+
+`checkCleanup` (model of what `Repository::check` does to the cache before it reads trees and packs): the pack clean-up
+`remove_not_in_list(Pack, tree packs of the index)` runs for EVERY cached handle; `trust_cache` only skips the comparisons.  Hence, from
+an ARBITRARY cache directory (foreign / overwritten / stale tree packs of other sizes, files at the locations of data packs, …) and for
+BOTH settings of `trust_cache`, every pack read `check` then makes equals the uncached one.  (Seeded breakage C19-6 put the clean-up
+under `!trust_cache`.) -/
+
+/-- the index's tree packs exist in the repository with the recorded size (what `check_packs_list` verifies) -/
+def TreePacksOf (be : SpecMap) (treePacks : List (Name × Nat)) : Prop :=
+  ∀ id n, sizeOf? treePacks id = some n → ∃ b, be (.pack, id) = some b ∧ n = b.length
+
+theorem listWithSize_sub {s : St} {t t' : FileType} {a : List (Name × Nat)} {id : Name} {d : Bytes}
+    (h : cHit (listWithSize L s t a).dirs (listWithSize L s t a).cache t' id = some d) :
+    cHit s.dirs s.cache t' id = some d := by
+  unfold listWithSize at h
+  by_cases ht : isCacheable t = true
+  · simp only [ht, if_true] at h; exact removeNotInList_sub h
+  · simp only [ht, Bool.false_eq_true, if_false] at h; exact h
+
+/-- `check` changes neither the repository nor the planted directories -/
+theorem check_cleanup_keeps_repository (s : St) (trust : Bool) (snaps idx tp : List (Name × Nat)) :
+    (checkCleanup L s trust snaps idx tp).be = s.be ∧ (checkCleanup L s trust snaps idx tp).dirs = s.dirs := ⟨rfl, rfl⟩
+
+theorem listWithSize_dirs (s : St) (t : FileType) (a : List (Name × Nat)) : (listWithSize L s t a).dirs = s.dirs := rfl
+
+theorem checkListed_dirs (s : St) (trust : Bool) (snaps idx : List (Name × Nat)) :
+    (checkListed L s trust snaps idx).dirs = s.dirs := by
+  cases trust <;> simp only [checkListed, listWithSize_dirs, Bool.false_eq_true, if_true, if_false]
+
+theorem checkCleanup_eq (s : St) (trust : Bool) (snaps idx tp : List (Name × Nat)) :
+    cHit (checkCleanup L s trust snaps idx tp).dirs (checkCleanup L s trust snaps idx tp).cache =
+      cHit (checkListed L s trust snaps idx).dirs
+        (removeNotInList L (checkListed L s trust snaps idx).dirs (checkListed L s trust snaps idx).cache .pack tp) := by
+  rw [checkListed_dirs]; rfl
+
+theorem checkListed_sub {s : St} {trust : Bool} {snaps idx : List (Name × Nat)} {t' : FileType} {id : Name} {d : Bytes}
+    (h : cHit (checkListed L s trust snaps idx).dirs (checkListed L s trust snaps idx).cache t' id = some d) :
+    cHit s.dirs s.cache t' id = some d := by
+  cases trust with
+  | true =>
+    simp only [checkListed, if_true] at h
+    exact listWithSize_sub (listWithSize_sub h)
+  | false =>
+    simp only [checkListed, Bool.false_eq_true, if_false] at h
+    exact listWithSize_sub (listWithSize_sub (listWithSize_sub (listWithSize_sub h)))
+
+/-- `check` only deletes from the cache directory -/
+theorem check_cleanup_sub {s : St} {trust : Bool} {snaps idx tp : List (Name × Nat)} {t' : FileType} {id : Name} {d : Bytes}
+    (h : cHit (checkCleanup L s trust snaps idx tp).dirs (checkCleanup L s trust snaps idx tp).cache t' id = some d) :
+    cHit s.dirs s.cache t' id = some d := by
+  rw [checkCleanup_eq] at h
+  exact checkListed_sub (removeNotInList_sub h)
+
+/-- **After `check`, with or without `trust_cache`, no stale or wrong-sized pack is left in the cache**: every pack entry is a tree pack
+of the index and has the size the index records — whatever the cache directory held. -/
+theorem no_stale_pack_after_check (s : St) (trust : Bool) (snaps idx tp : List (Name × Nat)) {id : Name}
+    (hn : isCacheName L id = true) {d : Bytes}
+    (h : cHit (checkCleanup L s trust snaps idx tp).dirs (checkCleanup L s trust snaps idx tp).cache .pack id = some d) :
+    sizeOf? tp id = some d.length := by
+  rw [checkCleanup_eq] at h
+  exact removeNotInList_survivor hn h
+
+/-- … so (honest contents) every pack entry left is the repository's pack -/
+theorem check_pack_entries_coherent (s : St) (trust : Bool) (snaps idx : List (Name × Nat)) {tp : List (Name × Nat)}
+    (htp : TreePacksOf s.be tp) (hh : Honest s .pack) {id : Name} (hn : isCacheName L id = true) :
+    EntryOK (checkCleanup L s trust snaps idx tp) .pack id := by
+  intro d h
+  obtain ⟨b, hb, hlen⟩ := htp id d.length (no_stale_pack_after_check s trust snaps idx tp hn h)
+  rw [(check_cleanup_keeps_repository s trust snaps idx tp).1, hh id d b (check_cleanup_sub h) hb hlen]
+  exact hb
+
+/-- **Transparency of the pack reads of `check` for both settings of `trust_cache`**: from ANY cache directory, after the clean-up
+`check` performs, every non-empty ranged read of ANY pack (tree blobs: `cb = true`; also data packs, stale ids) through the cached handle
+returns what the repository returns … -/
+theorem check_pack_reads_transparent (s : St) (trust : Bool) (snaps idx : List (Name × Nat)) {tp : List (Name × Nat)}
+    (htp : TreePacksOf s.be tp) (hh : Honest s .pack) {id : Name} (hn : isCacheName L id = true) (cb : Bool) (off : Nat)
+    {len : Nat} (hlen : 0 < len) :
+    (readPartial (checkCleanup L s trust snaps idx tp) .pack id cb off len).1 = beReadPartial s.be .pack id off len := by
+  have e := check_pack_entries_coherent s trust snaps idx htp hh hn
+  rw [← (check_cleanup_keeps_repository (L := L) s trust snaps idx tp).1]
+  exact prefix_entry_ranged_read_equiv (fun d' h' => ⟨d', e d' h', (List.take_length).symm⟩) cb off hlen
+
+/-- **The pack comparison of `check` (`check_cache_files(Pack)`, run without `trust_cache`) reports nothing** after the clean-up, whatever
+the cache directory held before: every entry left is the repository's pack — so the findings of `check` through a cached handle carry no
+cache-specific entry, with either setting. -/
+theorem check_cache_files_silent (s : St) (trust : Bool) (snaps idx : List (Name × Nat)) {tp : List (Name × Nat)}
+    (htp : TreePacksOf s.be tp) (hh : Honest s .pack) :
+    checkCacheFilesPack L (checkCleanup L s trust snaps idx tp) = [] := by
+  unfold checkCacheFilesPack
+  rw [List.filterMap_eq_nil_iff]
+  intro e he
+  obtain ⟨hn, hs⟩ := cList_hit he
+  obtain ⟨d, hd⟩ := Option.isSome_iff_exists.1 hs
+  have hb := check_pack_entries_coherent s trust snaps idx htp hh hn d hd
+  rw [hb, hd]
+  simp
+
+/-- … and whole-pack reads (`read_data`) never look at the cache at all -/
+theorem check_pack_read_full_transparent (s : St) (trust : Bool) (snaps idx tp : List (Name × Nat)) (id : Name) :
+    (readFull (checkCleanup L s trust snaps idx tp) .pack id).1 = beReadFull s.be .pack id := by
+  rw [noncacheable_read_bypasses_cache _ rfl, (check_cleanup_keeps_repository s trust snaps idx tp).1]
+
+/-- snapshot and index files: listed (hence cleaned) in both settings before they are read -/
+theorem check_file_reads_transparent (s : St) (trust : Bool) {snaps idx : List (Name × Nat)} (tp : List (Name × Nat))
+    {t : FileType} (ht : t = .snapshot ∨ t = .index) (hs : ListingOf s.be .snapshot snaps) (hi : ListingOf s.be .index idx)
+    (hh : Honest s t) {id : Name} (hn : isCacheName L id = true) :
+    (readFull (checkCleanup L s trust snaps idx tp) t id).1 = beReadFull s.be t id := by
+  rw [← (check_cleanup_keeps_repository (L := L) s trust snaps idx tp).1]
+  refine entry_coherent_read_equiv (fun d h => ?_)
+  rw [(check_cleanup_keeps_repository s trust snaps idx tp).1]
+  rw [checkCleanup_eq] at h
+  have h2 := removeNotInList_sub h
+  rcases ht with ht | ht <;> subst ht
+  · -- the first step of `check` lists the snapshots; everything after it only deletes
+    have h0 : cHit (listWithSize L s .snapshot snaps).dirs (listWithSize L s .snapshot snaps).cache .snapshot id = some d := by
+      cases trust with
+      | true =>
+        simp only [checkListed, if_true] at h2
+        exact listWithSize_sub h2
+      | false =>
+        simp only [checkListed, Bool.false_eq_true, if_false] at h2
+        exact listWithSize_sub (listWithSize_sub (listWithSize_sub h2))
+    exact list_restores_coherence_honest s rfl hs hh hn h0
+  · -- the last listing before the pack clean-up is that of the index files
+    cases trust with
+    | true =>
+      simp only [checkListed, if_true] at h2
+      exact list_restores_coherence_honest (listWithSize L s .snapshot snaps) rfl hi
+        (fun i d b hc hb hl => hh i d b (listWithSize_sub hc) hb hl) hn h2
+    | false =>
+      simp only [checkListed, Bool.false_eq_true, if_false] at h2
+      exact list_restores_coherence_honest
+        (listWithSize L (listWithSize L (listWithSize L s .snapshot snaps) .snapshot snaps) .index idx) rfl hi
+        (fun i d b hc hb hl => hh i d b (listWithSize_sub (listWithSize_sub (listWithSize_sub hc))) hb hl) hn h2
+
+/-! ### (8) transparency with ANYTHING at the cache locations of never-cached files
+
+`transparent` assumes `Inv = Coh ∧ NoEntry`: nothing lies at the cache location of a file that is never cached.  That hypothesis is not
+needed: coherence of the entries of the files that ARE cached (`CohOn`) is an invariant on its own and gives the same conclusion — so a
+history mixing cached and never-cached files is transparent whatever was planted at `<type>/<xx>/<id>` of the data packs, keys and the
+config file (the state seeded breakage C19-7 needs). -/
+
+def CohOn (L : Nat) (cbOf : Key → Bool) (s : St) : Prop :=
+  ∀ t id d, id.length = L → cacheOn cbOf t id = true → cHit s.dirs s.cache t id = some d → s.be (t, id) = some d
+
+theorem inv_cohOn {cbOf : Key → Bool} {s : St} (hi : Inv L cbOf s) : CohOn L cbOf s :=
+  fun t id d hl _ h => hi.1 t id d hl h
+
+theorem refilled_cohOn {cbOf : Key → Bool} {s s' : St} (hc : CohOn L cbOf s) {t : FileType} {id : Name} (hl : id.length = L)
+    (h : Refilled s s' t id) : CohOn L cbOf s' := by
+  rcases h with h | ⟨d, hb, h⟩
+  · subst h; exact hc
+  · subst h
+    intro t' id' d' hl' hon h'
+    simp only at h'
+    rw [cHit_cWrite s.dirs s.cache hl hl' d] at h'
+    by_cases e : (t' = t ∧ id' = id) ∧ writes s.dirs s.cache t id = true
+    · rw [if_pos e] at h'; cases h'; rw [e.1.1, e.1.2]; exact hb
+    · rw [if_neg e] at h'; exact hc t' id' d' hl' hon h'
+
+theorem read_preserves_on {cbOf : Key → Bool} {s : St} (hi : CohOn L cbOf s) (t : FileType) {id : Name} (hl : id.length = L) :
+    (readFull s t id).1 = beReadFull s.be t id ∧ (readFull s t id).2.be = s.be ∧ CohOn L cbOf (readFull s t id).2 := by
+  refine ⟨?_, (refilled_be (readFull_state s t id).1).1, refilled_cohOn hi hl (readFull_state s t id).1⟩
+  by_cases ht : isCacheable t = true
+  · exact entry_coherent_read_equiv (fun d h => hi t id d hl (by simp [cacheOn, ht]) h)
+  · rw [noncacheable_read_bypasses_cache s (by simpa using ht) id]
+
+theorem ranged_read_preserves_on {cbOf : Key → Bool} {s : St} (hi : CohOn L cbOf s) (t : FileType) {id : Name}
+    (hl : id.length = L) (off len : Nat) (hlen : 0 < len) :
+    (readPartial s t id (cbOf (t, id)) off len).1 = beReadPartial s.be t id off len ∧
+    (readPartial s t id (cbOf (t, id)) off len).2.be = s.be ∧
+    CohOn L cbOf (readPartial s t id (cbOf (t, id)) off len).2 := by
+  refine ⟨?_, (refilled_be (readPartial_state s t id _ off len).1).1,
+          refilled_cohOn hi hl (readPartial_state s t id _ off len).1⟩
+  by_cases hon : cacheOn cbOf t id = true
+  · exact prefix_entry_ranged_read_equiv (fun d' h' => ⟨d', hi t id d' hl hon h', (List.take_length).symm⟩) _ off hlen
+  · have hoff : cbOf (t, id) = false ∧ isCacheable t = false := by simpa [cacheOn] using hon
+    rw [hoff.1, noncacheable_read_partial_bypasses_cache s hoff.2 id off len]
+
+theorem write_preserves_on {cbOf : Key → Bool} {s : St} (hi : CohOn L cbOf s) (t : FileType) {id : Name}
+    (hl : id.length = L) (d : Bytes)
+    (hw : tmpBlocked s.dirs s.cache t id = true → ∀ d0, cHit s.dirs s.cache t id = some d0 → d0 = d) :
+    CohOn L cbOf (writeBytes s t id (cbOf (t, id)) d) := by
+  unfold writeBytes
+  by_cases hcb : (cbOf (t, id) || isCacheable t) = true
+  · simp only [hcb, if_true]
+    intro t' id' d' hl' hon h'
+    simp only at h' ⊢
+    rw [cHit_cWrite s.dirs s.cache hl hl' d] at h'
+    by_cases e : t' = t ∧ id' = id
+    · obtain ⟨e1, e2⟩ := e; subst e1; subst e2
+      have hbe : s.be.write (t', id') d (t', id') = some d := by simp [SpecMap.write]
+      by_cases hwr : writes s.dirs s.cache t' id' = true
+      · simp [hwr] at h'; subst h'; exact hbe
+      · rw [if_neg (fun h => hwr h.2)] at h'
+        by_cases htmp : tmpBlocked s.dirs s.cache t' id' = true
+        · rw [hw htmp d' h']; exact hbe
+        · simp only [tmpBlocked, Bool.or_eq_true, not_or, Bool.not_eq_true] at htmp
+          cases hp : parentObj s.cache t' id' with
+          | some b => rw [cHit_of_parent _ (by rw [hp]; rfl)] at h'; cases h'
+          | none =>
+            have hdir : hasDir s.dirs (cpath t' id') = true := by
+              simp only [writes, hp, htmp.1, htmp.2, Option.isNone_none, Bool.not_false, Bool.true_and,
+                Bool.not_eq_eq_eq_not, Bool.not_true] at hwr
+              simpa using hwr
+            rw [cHit_of_dir _ hdir] at h'; cases h'
+    · have e' : ¬((t' = t ∧ id' = id) ∧ writes s.dirs s.cache t id = true) := fun h => e h.1
+      rw [if_neg e'] at h'
+      have hne : (t', id') ≠ (t, id) := fun h => e (by cases h; exact ⟨rfl, rfl⟩)
+      simp only [SpecMap.write, hne, if_false]
+      exact hi t' id' d' hl' hon h'
+  · simp only [hcb, Bool.false_eq_true, ↓reduceIte]
+    have hoff : cacheOn cbOf t id = false := by simpa [cacheOn] using hcb
+    intro t' id' d' hl' hon h'
+    simp only [SpecMap.write] at h' ⊢
+    by_cases e : (t', id') = (t, id)
+    · cases e; rw [hoff] at hon; cases hon
+    · simp [e]; exact hi t' id' d' hl' hon h'
+
+theorem remove_preserves_on {cbOf : Key → Bool} {s : St} (hi : CohOn L cbOf s) (t : FileType) {id : Name}
+    (_ : id.length = L) : CohOn L cbOf (remove s t id (cbOf (t, id))) := by
+  unfold remove
+  by_cases hcb : (cbOf (t, id) || isCacheable t) = true
+  · simp only [hcb, if_true]
+    intro t' id' d' hl' hon h'
+    simp only [SpecMap.remove] at h' ⊢
+    rw [cHit_cRemove] at h'
+    by_cases e : t' = t ∧ id' = id
+    · simp [e] at h'
+    · simp [e] at h'
+      have : (t', id') ≠ (t, id) := fun h => e (by cases h; exact ⟨rfl, rfl⟩)
+      simp [this]; exact hi t' id' d' hl' hon h'
+  · simp only [hcb, Bool.false_eq_true, ↓reduceIte]
+    have hoff : cacheOn cbOf t id = false := by simpa [cacheOn] using hcb
+    intro t' id' d' hl' hon h'
+    simp only [SpecMap.remove] at h' ⊢
+    by_cases e : (t', id') = (t, id)
+    · cases e; rw [hoff] at hon; cases hon
+    · simp [e]; exact hi t' id' d' hl' hon h'
+
+theorem ops_preserve_cohOn {cbOf : Key → Bool} {s : St} (hi : CohOn L cbOf s) (op : Op)
+    (hop : OpOK L cbOf s.dirs s.cache op) :
+    (stepC L s op).1 = (stepU s.be op).1 ∧ (stepC L s op).2.be = (stepU s.be op).2 ∧ CohOn L cbOf (stepC L s op).2 := by
+  cases op with
+  | read t id =>
+    obtain ⟨h1, h2, h3⟩ := read_preserves_on hi t hop
+    exact ⟨by simp [stepC, stepU, h1], by simp [stepC, stepU, h2], h3⟩
+  | readPartial t id cb off len =>
+    obtain ⟨hl, hcb, hlen⟩ := hop
+    subst hcb
+    obtain ⟨h1, h2, h3⟩ := ranged_read_preserves_on hi t hl off len hlen
+    exact ⟨by simp [stepC, stepU, h1], by simp [stepC, stepU, h2], h3⟩
+  | write t id cb d =>
+    obtain ⟨hl, hcb, hw⟩ := hop
+    subst hcb
+    exact ⟨rfl, rfl, write_preserves_on hi t hl d (fun h => by rw [hw] at h; cases h)⟩
+  | remove t id cb =>
+    obtain ⟨hl, hcb⟩ := hop
+    subst hcb
+    exact ⟨rfl, rfl, remove_preserves_on hi t hl⟩
+  | list t a => exact ⟨rfl, rfl, fun t' id' d' hl' hon h' => hi t' id' d' hl' hon (listWithSize_sub h')⟩
+
+/-- **Transparency, whatever lies at the cache locations of never-cached files** (`transparent` without `NoEntry`). -/
+theorem transparent_any_noncacheable_entries {cbOf : Key → Bool} (ops : List Op) (s : St)
+    (hops : ∀ op ∈ ops, OpOK L cbOf s.dirs s.cache op) (hi : CohOn L cbOf s) :
+    (runC L s ops).1 = (runU s.be ops).1 ∧ (runC L s ops).2.be = (runU s.be ops).2 ∧ CohOn L cbOf (runC L s ops).2 := by
+  induction ops generalizing s with
+  | nil => exact ⟨rfl, rfl, hi⟩
+  | cons op rest ih =>
+    obtain ⟨h1, h2, h3⟩ := ops_preserve_cohOn hi op (hops op List.mem_cons_self)
+    have hd := dirs_constant (L := L) s op
+    obtain ⟨g1, g2, g3⟩ := ih (stepC L s op).2
+      (fun o ho => by rw [hd]; exact opOK_mono (fun p hp => dangling_shrink s op hp) (hops o (List.mem_cons_of_mem _ ho))) h3
+    simp only [runC, runU]
+    rw [h2] at g1 g2
+    exact ⟨by rw [h1, g1], g2, g3⟩
+
+/-- a cache directory that holds files ONLY at locations of never-cached files is `CohOn` for every repository -/
+theorem foreign_noncacheable_entries_cohOn (cbOf : Key → Bool) (s : St)
+    (h : ∀ t id, id.length = L → cacheOn cbOf t id = true → cHit s.dirs s.cache t id = none) : CohOn L cbOf s :=
+  fun t id d hl hon hc => by rw [h t id hl hon] at hc; cases hc
+
 /-! ### non-vacuity / witnesses -/
 
 def idA : Name := List.replicate 64 'a'
@@ -757,5 +1100,33 @@ example :
     let s : St := { be := be1, cache := { files := [(cpath .snapshot idA, [1, 2, 3, 4])] }, dirs := [ctmp .snapshot idA] }
     (readFull (writeBytes s .snapshot idA false [7]) .snapshot idA).1 = .ok [1, 2, 3, 4] ∧
     beReadFull (writeBytes s .snapshot idA false [7]).be .snapshot idA = .ok [7] := by decide
+
+/-- seeded breakage C19-7 (replayed on the real code: `corpus/C19/witnesses.ops`): a foreign file at the cache location of the DATA pack
+`idA` (never cached: `cacheable = false`) — whole and ranged reads come from the repository, the cache directory is not touched;
+read as a TREE pack (`cacheable = true`) the same file would be served (a wrong-sized pack entry stays until `check`) -/
+def bePack : SpecMap := fun k => if k = (.pack, idA) then some [1, 2, 3, 4] else none
+example :
+    let s : St := { be := bePack, cache := { files := [(cpath .pack idA, [9, 9, 9, 9, 9])] } }
+    (readPartial s .pack idA false 1 2).1 = .ok [2, 3] ∧ (readPartial s .pack idA false 1 2).2.cache.files = s.cache.files ∧
+    (readFull s .pack idA).1 = .ok [1, 2, 3, 4] ∧ (readPartial s .pack idA true 1 2).1 = .ok [9, 9] := by decide
+/-- seeded breakage C19-6: an overwritten tree pack of another size (`idA`) and a stale pack (`idB`) in the cache: the clean-up of `check`
+removes both with AND without `trust_cache`; the tree-blob read that follows is the repository's -/
+example (trust : Bool) :
+    let s : St := { be := bePack, cache := { files := [(cpath .pack idA, [9, 9, 9, 9, 9]), (cpath .pack idB, [7])] } }
+    (checkCleanup 64 s trust [] [] [(idA, 4)]).cache.files = [] ∧
+    (readPartial (checkCleanup 64 s trust [] [] [(idA, 4)]) .pack idA true 1 2).1 = .ok [2, 3] ∧
+    checkCacheFilesPack 64 s = [.cacheMismatch idA, .errorReadingFile idB] ∧
+    checkCacheFilesPack 64 (checkCleanup 64 s trust [] [] [(idA, 4)]) = [] := by
+  cases trust <;> decide
+
+/-- `CohOn` does not care what lies at the location of the data pack `idA` (`cbOf` = never cacheable) — `Inv` would be false here -/
+example :
+    let s : St := { be := bePack, cache := { files := [(cpath .pack idA, [9, 9, 9, 9, 9])] } }
+    CohOn 64 (fun _ => false) s ∧ ¬ Inv 64 (fun _ => false) s := by
+  refine ⟨foreign_noncacheable_entries_cohOn _ _ (fun t id _ hon => ?_), fun h => ?_⟩
+  · cases t <;> simp [cacheOn, isCacheable] at hon <;> simp [cHit, parentObj, parentAt, lget, fget, hasDir, entryBytes, cpath,
+      FileType.dirname, nSnapshots, nIndex] <;> (intro h; exact absurd h (by decide))
+  · have := h.2 .pack idA (by decide) (by decide)
+    revert this; decide
 
 end Rustic.Props.C19
